@@ -13,7 +13,7 @@ from .common import PB, PE, PC, PL, PU, LX, ckey, is_super_call, is_self_call
 
 P = "C13"
 EXPLANATION = (
-    "Static rules D13.1-D13.7 (DESIGN.md section 5, C13): truth tables of all is_valid implementations against the "
+    "Static rules D13.1-D13.8 (DESIGN.md section 5, C13): truth tables of all is_valid implementations against the "
     "specification formulas (enumerating every consistent valuation of the status atoms), reply offsets of the two "
     "_parse_reply families and of the extended-status reader against the message-router reply layout, T-WRAP containment "
     "of every _parse_reply override (record mode: failures must end in self._error), the partial-transfer service set, "
@@ -561,3 +561,63 @@ def d13_7(ctx):
                 if comp is None and (atom_name(e) == base or (isinstance(e, ast.Call) and attr_path(e.func) == f"{base}.is_valid")):
                     ok, how = True, f"under `{src(e)}`"
         ctx.check(ok, ckey(f"{drv.key}.{mth.name}", f"nonnull:{src(n)}@{'comp' if comp is not None else 'stmt'}"), n, f"`{src(n)}` used {how}", f"`{src(n)}` is measured/joined without a dominating status or validity test of that reply: it is None for replies that failed to parse")
+
+
+@rule(P, "D13.8", "T-WITNESS", floor=8)
+def d13_8(ctx):
+    """Status text folded on witness replies (sa/miniinterp.py with a witness stream): for every row of a sample of the
+    extended-status table the text names that row; a status without extended words, an unknown extended code and an unknown
+    extended-size give the documented fallbacks; the two per-class formatters prepend the general status text and read the
+    status words at their class's offset."""
+    from ..miniinterp import Obj, run_function
+
+    ges = ctx.model.func(f"{PU}:get_extended_status")
+    codes = ctx.folder.module_value("pycomm3.cip.status_info", "EXTEND_CODES")
+    svc = ctx.folder.module_value("pycomm3.cip.status_info", "SERVICE_STATUS")
+    if not isinstance(codes, dict) or not isinstance(svc, dict):
+        ctx.undecided(ckey(ges, "witness"), ges.node, "status tables not foldable")
+        return
+    a_msg, a_start = [a.arg for a in ges.node.args.args][:2]
+    samples = []
+    for st, rows in sorted(codes.items()):
+        ks = sorted(rows)
+        for ext in {ks[0], ks[-1], ks[len(ks) // 2]}:
+            samples.append((st, ext, rows[ext]))
+    for st, ext, text in samples[:24]:
+        for start in (42, 48):
+            msg = bytes(start) + bytes([st, 1]) + ext.to_bytes(2, "little")
+            kind, res = run_function(ctx, ges.module, ges.node, {a_msg: msg, a_start: start})
+            key = ckey(ges, f"witness:{st:02x}/{ext:04x}@{start}")
+            if kind == "unknown":
+                ctx.undecided(key, ges.node, f"get_extended_status not foldable: {res}")
+                continue
+            ok = kind == "return" and isinstance(res, str) and text in res and f"{st:0>2x}" in res and f"{ext:0>2x}" in res
+            ctx.check(ok, key, ges.node, f"status {st:#04x} ext {ext:#06x} -> '{text}...'", f"extended status {st:#04x}/{ext:#06x} at offset {start} gives {res!r} (expected the table text '{text}' with both codes)", status=st, ext=ext)
+    for label, msg, want in (("no extended words", bytes(48) + b"\x08\x00", None), ("unknown extended code", bytes(48) + b"\x01\x01\xfe\xff", None), ("three extended words", bytes(48) + b"\x01\x03" + bytes(6), "[ERROR] Extended Status Size Unknown")):
+        kind, res = run_function(ctx, ges.module, ges.node, {a_msg: msg, a_start: 48})
+        key = ckey(ges, f"witness:{label}")
+        if kind == "unknown":
+            ctx.undecided(key, ges.node, f"not foldable: {res}")
+            continue
+        ctx.check(kind == "return" and res == want, key, ges.node, f"{label} -> {want!r}", f"{label}: {kind} {res!r} (expected {want!r})")
+    # the per-class formatters
+    for cname, off in (("SendUnitDataResponsePacket", 48), ("SendRRDataResponsePacket", 42)):
+        c = ctx.model.cls(f"{PE}:{cname}")
+        for meth, attr in (("service_extended_status", "service_status"), ("command_extended_status", "command_status")):
+            fn = c.methods.get(meth)
+            if fn is None:
+                continue
+            st, ext = samples[0][0], samples[0][1]
+            raw = bytes(off) + bytes([st, 1]) + ext.to_bytes(2, "little")
+            me = Obj(raw=raw, service_status=st, command_status=st)
+            kind, res = run_function(ctx, c.module, fn, {"self": me}, deep=False)
+            key = ckey(f"{c.key}.{meth}", "witness")
+            if kind == "unknown":
+                ctx.undecided(key, fn, f"not foldable: {res}")
+                continue
+            gen = svc.get(st, "")
+            ok = kind == "return" and isinstance(res, str) and gen in res and samples[0][2] in res
+            ctx.check(ok, key, fn, f"'{gen} - {samples[0][2]}...'", f"{cname}.{meth} gives {res!r} for status {st:#04x} with extended {ext:#06x} at offset {off} (expected the general text '{gen}' and the extended text)")
+            me2 = Obj(raw=bytes(off) + bytes([st, 0]), service_status=st, command_status=st)
+            kind, res = run_function(ctx, c.module, fn, {"self": me2}, deep=False)
+            ctx.check(kind == "return" and res == gen, ckey(f"{c.key}.{meth}", "witness-no-ext"), fn, f"without extended words: '{gen}'", f"{cname}.{meth} gives {res!r} for status {st:#04x} without extended words (expected '{gen}')")
